@@ -34,6 +34,8 @@ func main() {
 	switch os.Args[1] {
 	case "selftest":
 		os.Exit(selftest())
+	case "replay":
+		os.Exit(hx.Replay(os.Args[2]))
 	case "try":
 		os.Exit(try(os.Args[2:]))
 	case "check":
